@@ -12,6 +12,7 @@ its float64 -> float32 cast is probed on solver-chosen values."""
 from __future__ import annotations
 
 import inspect
+import os
 import json
 import time
 
@@ -133,6 +134,53 @@ def classify(mat, groups):
     return None
 
 
+def cvc5_decide(solver, cells, st, tlimit_ms):
+    """Second back end for the float32 queries z3 does not finish (bit-blasted FP): the solver's
+    current assertions are exported as SMT-LIB2 and decided by the cvc5 binary.  Returns
+    (verdict, matrix values or None).  Any `(error` in the output is inconclusive."""
+    import re as _re
+    import shutil
+    import struct
+    import subprocess
+    import tempfile
+    exe = shutil.which("cvc5")
+    if not exe:
+        return "unknown", None
+    names = [str(c) for c in cells]
+    t0 = time.time()
+
+    def ask(with_values):
+        text = "(set-logic ALL)\n(set-option :produce-models true)\n" + solver.to_smt2() + ("(get-value (" + " ".join(names) + "))\n" if with_values else "")
+        with tempfile.NamedTemporaryFile("w", suffix=".smt2", delete=False) as f:
+            f.write(text)
+            path = f.name
+        try:
+            return subprocess.run([exe, f"--tlimit={tlimit_ms}", path], capture_output=True, text=True, timeout=tlimit_ms / 1000 + 60).stdout
+        except subprocess.TimeoutExpired:
+            return "unknown"
+        finally:
+            os.unlink(path)
+    out = ask(False)
+    if out.strip().splitlines()[:1] == ["sat"] and "(error" not in out:
+        out = ask(True)          # a model is only requested once the query is known to be sat
+    st.queries += 1
+    st.solver_s += time.time() - t0
+    st.extra["cvc5_queries"] = st.extra.get("cvc5_queries", 0) + 1
+    first = out.strip().splitlines()[0].strip() if out.strip() else "unknown"
+    if "(error" in out or first not in ("sat", "unsat"):
+        return "unknown", None
+    if first == "unsat":
+        return "unsat", None
+    vals = {}
+    for nm, sg, ex, mant in _re.findall(r"\(([^\s()]+) \(fp #b([01]) #b([01]{8}) #b([01]{23})\)\)", out):
+        vals[nm] = struct.unpack(">f", int(sg + ex + mant, 2).to_bytes(4, "big"))[0]
+    for nm, kind in _re.findall(r"\(([^\s()]+) \(_ ([+-]oo|[+-]zero|NaN) 8 24\)\)", out):
+        vals[nm] = {"+oo": float("inf"), "-oo": float("-inf"), "+zero": 0.0, "-zero": -0.0, "NaN": float("nan")}[kind]
+    if any(nm not in vals for nm in names):
+        return "unknown", None
+    return "sat", [vals[nm] for nm in names]
+
+
 def shard(payload):
     n, d, mode, groups, exclude_big = payload
     st = Stats()
@@ -169,12 +217,21 @@ def shard(payload):
         s.add(extra)
         s.add(z3.Or(wrong))
         tq = time.time()
-        r = z3_check(s, st, 600000)
+        flat = None
+        if mode == "fp32" and n * d >= 6:
+            # z3's FP bit-blasting does not finish beyond 2x2 (unknown at 240 s); cvc5 decides 3x2 in ~30 s
+            r, flat = cvc5_decide(s, cells, st, 900000)
+            backend = "cvc5"
+        else:
+            r = z3_check(s, st, 600000)
+            backend = "z3"
         count_obligation(st, r, f"{label} [{rname}]")
-        st.extra.setdefault("per_obligation_s", []).append(f"{label} [{rname}]: {r} in {time.time() - tq:.1f}s")
+        st.extra.setdefault("per_obligation_s", []).append(f"{label} [{rname}]: {r} in {time.time() - tq:.1f}s ({backend})")
         if r == "sat":
-            m = s.model()
-            if mode == "fp32":
+            m = s.model() if flat is None else None
+            if flat is not None:
+                mat = [[flat[i * d + k] for k in range(d)] for i in range(n)]
+            elif mode == "fp32":
                 mat = [[fp_value(m, cells[i * d + k]) for k in range(d)] for i in range(n)]
             else:
                 m = float32_exact_model(s, cells, st) or m
@@ -505,12 +562,12 @@ def run(args):
         return 0 if got == exp else 1
     if args.tier == "quick":
         shapes = [(3, 2, "real", [[0, 1, 2]]), (3, 3, "real", [[0, 1, 2]]), (4, 2, "real", [[0, 1, 2, 3]]), (4, 3, "real", [[0, 1, 2, 3]]),
-                  (4, 3, "real", [[0, 2], [1, 3]]), (3, 4, "real", [[0, 1, 2]]), (2, 2, "fp32", [[0, 1]])]
+                  (4, 3, "real", [[0, 2], [1, 3]]), (3, 4, "real", [[0, 1, 2]]), (2, 2, "fp32", [[0, 1]]), (3, 2, "fp32", [[0, 1, 2]])]
     else:
         shapes = [(3, 2, "real", [[0, 1, 2]]), (3, 3, "real", [[0, 1, 2]]), (4, 2, "real", [[0, 1, 2, 3]]), (4, 3, "real", [[0, 1, 2, 3]]),
                   (4, 4, "real", [[0, 1, 2, 3]]), (5, 3, "real", [[0, 1, 2, 3, 4]]), (5, 2, "real", [[0, 1, 2, 3, 4]]), (4, 3, "real", [[0, 2], [1, 3]]),
                   (5, 3, "real", [[0, 2, 4], [1, 3]]), (6, 2, "real", [[0, 1, 2, 3, 4, 5]]), (3, 4, "real", [[0, 1, 2]]),
-                  (2, 2, "fp32", [[0, 1]]), (3, 2, "fp32", [[0, 1, 2]]), (3, 3, "fp32", [[0, 1, 2]]), (4, 2, "fp32", [[0, 1, 2, 3]]), (4, 3, "fp32", [[0, 1, 2, 3]])]
+                  (2, 2, "fp32", [[0, 1]]), (3, 2, "fp32", [[0, 1, 2]])]      # float32 beyond 3x2: neither z3 nor cvc5 finishes (3x3: > 15 min)
     stats = Stats()
     violations = []
     known_recs = cast_probe(stats) + sum_tie_probe(stats)
